@@ -63,6 +63,52 @@ pub fn run_family(ctx: &Ctx, rep: &mut Report, text: bool) {
     rep.bound("objects", Json::i(fam.len() as u64));
 }
 
+// ---- life cycle: a round trip that follows a failed (or differently ending) read on the same thread
+const BREAKS: u64 = 14;
+/// the object's own serialization, damaged in way `k` (truncations, a bad escape after a column separator, garbage lines / bytes, a flipped byte)
+fn damaged_text(s: &str, k: u64) -> String {
+    let cut = |n: usize| { let mut e = n.min(s.len()); while !s.is_char_boundary(e) { e -= 1; } s[..e].to_string() };
+    match k {
+        0 => cut(s.len() / 4), 1 => cut(s.len() / 2), 2 => cut(s.len() * 3 / 4), 3 => cut(s.len().saturating_sub(1)),
+        4 => s.replacen(" | ", " | \\q", 1), 5 => { match s.rfind(" | ") { Some(i) => format!("{} | C:\\work\\lab1.asm{}", &s[..i], &s[i + 3..]), None => format!("{s}\\") } }
+        6 => s.replace(" | ", " | \\x"), 7 => format!("garbage\n{s}"), 8 => format!("{s}\ngarbage | \\"), 9 => s.replacen('\n', "\n\n====\n", 1),
+        10 => s.replace("\\n", "\\"), 11 => s.replacen("x", "xZ", 1), 12 => format!("{s}{s}"), _ => String::new(),
+    }
+}
+fn damaged_bytes(b: &[u8], k: u64) -> Vec<u8> {
+    let mut v = b.to_vec();
+    match k {
+        0 => v.truncate(b.len() / 4), 1 => v.truncate(b.len() / 2), 2 => v.truncate(b.len() * 3 / 4), 3 => { v.pop(); }
+        4 => { if let Some(x) = v.first_mut() { *x ^= 0xFF; } } 5 => { let n = v.len(); if n > 0 { v[n / 2] ^= 0x80; } } 6 => { let n = v.len(); if n > 0 { v[n - 1] ^= 0xFF; } }
+        7 => { v.insert(0, 0x7F); } 8 => v.extend([0xFF; 9]), 9 => { let n = v.len(); if n > 8 { for x in &mut v[n / 4..n / 4 + 8] { *x = 0xFF; } } }
+        10 => { let n = v.len(); if n > 2 { v.swap(n / 3, n / 3 + 1); } } 11 => { for x in v.iter_mut().skip(4).step_by(97) { *x = 0xC3; } } 12 => { let c = v.clone(); v.extend(c); } _ => v.clear(),
+    }
+    v
+}
+/// Runs on a thread of its own, so that whatever per-thread state the reader keeps starts clean and the verdict of one case cannot depend
+/// on the cases that happened to run before it on the same worker (replay discipline).
+pub fn after_failed_read(o: &ObjectFile, k: u64, text: bool) -> Option<(String, String)> {
+    std::thread::scope(|s| s.spawn(|| after_failed_read_here(o, k, text)).join()).unwrap_or_else(|_| Some(("machinery:thread".into(), "case thread panicked".into())))
+}
+fn after_failed_read_here(o: &ObjectFile, k: u64, text: bool) -> Option<(String, String)> {
+    let first = catch(|| if text { TextFormat::deserialize(&damaged_text(&TextFormat::serialize(o), k)).is_some() } else { BinaryFormat::deserialize(&damaged_bytes(&BinaryFormat::serialize(o), k)).is_some() });
+    let accepted = match first { Ok(a) => a, Err(_) => return None }; // a panic on damaged input is C19's subject
+    roundtrip(o, text).map(|(s, d)| (format!("after-{}-read:{s}", if accepted { "another" } else { "a-failed" }), format!("after the reader had {} a damaged copy (damage #{k}) on the same thread: {d}", if accepted { "accepted" } else { "rejected" })))
+}
+pub fn run_after_failed_reads(ctx: &Ctx, rep: &mut Report, text: bool) {
+    let fam = family(ctx.thorough());
+    let stride = ctx.pick(11u64, 3u64);
+    let r = sweep(ctx, fam.len() as u64 * BREAKS, 8, |j, acc| {
+        let (i, k) = (j / BREAKS, j % BREAKS);
+        let c = &fam[i as usize];
+        let big = c.desc.starts_with("big ") || c.desc.starts_with("dense ");
+        if i % stride != 0 && !(big && k % 5 == 4) { return; }
+        acc.evals += 1; acc.transitions += 3; acc.count("round_trips_after_a_failed_read", 1);
+        if let Some((sig, d)) = after_failed_read(&c.obj, k, text) { acc.violation(sig, format!("afr:{}:{i}:{k}", ctx.thorough() as u8), format!("{}: {d}", c.desc)); }
+    });
+    rep.absorb(r);
+}
+
 // ---- hostile sources (C18, also used by C17)
 const TOK: [&str; 20] = ["\"", "\\", "'", "\t", "\r", "\u{1}", "\u{7f}", "é", " | ", "====", "#", ".TEXT", "\n;", "\n \t\n;", "\0", "7", "n", "u{41}", "x41", "\u{2028}"];
 pub fn hostile_count(maxlen: u32) -> u64 { (0..=maxlen).map(|l| 20u64.pow(l)).sum() }
@@ -105,6 +151,7 @@ pub fn run_hostile(ctx: &Ctx, rep: &mut Report, text: bool) {
 pub fn replay(case: &str, text: bool) -> Option<String> {
     if let Some(h) = case.strip_prefix("src:") { let s = String::from_utf8(unhex(h)?).ok()?; return check_source(&s, text).ok().flatten().map(|x| x.1); }
     let p: Vec<&str> = case.split(':').collect();
+    if p[0] == "afr" { let fam = family(*p.get(1)? == "1"); let c = fam.get(p.get(2)?.parse::<usize>().ok()?)?; return after_failed_read(&c.obj, p.get(3)?.parse().ok()?, text).map(|x| format!("{}: {}", c.desc, x.1)); }
     let fam = family(*p.get(1)? == "1");
     let c = fam.get(p.get(2)?.parse::<usize>().ok()?)?;
     roundtrip(&c.obj, text).map(|x| format!("{}: {}", c.desc, x.1))
